@@ -861,9 +861,10 @@ def do_check(pid, cfg, tier, seed, ws, injected, args, t0):
         "wall_s": round(wall, 1),
         "violations": len(violations),
     }
-    if args.patch:
-        # a development run on a patched scratch copy says nothing about /repo: keep it apart
-        write_json(os.path.join(workdir, "evidence-patched-%s.json" % pid), ev)
+    if args.patch or args.only:
+        # a development run (patched scratch copy, or a single group) is not the property's
+        # evidence: keep it apart
+        write_json(os.path.join(workdir, "evidence-partial-%s.json" % pid), ev)
     else:
         write_json(os.path.join(VERIF, "evidence", pid + ".json"), ev)
     log("SUMMARY property=%s tier=%s obligations=%d discharged=%d (unbounded %d/%d, bounded %d/%d) violations=%d known=%d undecided=%d wall=%.0fs" %
